@@ -350,6 +350,44 @@ func (w *metaWorld) runDials(c *engine.Ctx, seed int64) {
 			conn.Close()
 		}
 	}
+	// one state object kept by the node and updated in place between its dials (a session counter, a changed
+	// label, a removed field): every connection carries the state as it is when that connection is dialed
+	live, _ := structpb.NewStruct(map[string]any{"session": "one", "attempt": 1.0, "labels": []any{"a"}})
+	for round := 1; round <= 4; round++ {
+		switch round {
+		case 2:
+			live.Fields["session"], live.Fields["attempt"] = structpb.NewStringValue("two"), structpb.NewNumberValue(2)
+		case 3:
+			delete(live.Fields, "labels")
+		case 4:
+			live.Fields["nested"] = structpb.NewStructValue(&structpb.Struct{Fields: map[string]*structpb.Value{"k": structpb.NewBoolValue(true)}})
+		}
+		want := proto.Clone(live).(*structpb.Struct)
+		mc := metaCase{Kind: "honest-dial", State: fmt.Sprintf("same-object-updated-in-place(round %d)", round), Extras: "none"}
+		conn, derr := protocol.Dial(w.s.Ctx, w.A.Store, w.lw.Addr, w.A.NodeOpts(nodeenrollment.WithState(live))...)
+		r.Eval("dial|state object reused|round "+fmt.Sprint(round), true)
+		if derr != nil {
+			r.Count("honest_client_not_authenticated", 1)
+			continue
+		}
+		rec, werr := w.lw.Wait(conn.LocalAddr().String())
+		if werr != nil {
+			conn.Close()
+			r.Inconclusive("watchdog waiting for server side of a dial")
+			return
+		}
+		if pc, ok := rec.Conn.(*protocol.Conn); ok && rec.Authenticated() {
+			if !stateEqual(pc.ClientState(), want) {
+				r.Violation("client-state-differs:dial:state-object-updated-in-place", fmt.Sprintf("the node updated its state object in place and dialed again (round %d): the connection reports a state that is not the one the node supplied for this connection", round), mc)
+			} else {
+				r.Count("dials_with_equal_metadata:state-object-updated-in-place", 1)
+			}
+			rec.Conn.Close()
+		} else {
+			r.Count("honest_client_not_authenticated", 1)
+		}
+		conn.Close()
+	}
 }
 
 func stripPref(in []string) []string {
@@ -682,6 +720,7 @@ func runMeta(c *engine.Ctx) engine.Result {
 	r.Require("states_equal:30k", 1)
 	r.Require("dials_with_equal_metadata:30k", 3)
 	r.Require("dials_with_equal_metadata:absent", 3)
+	r.Require("dials_with_equal_metadata:state-object-updated-in-place", 8)
 	r.Require("states_equal:nested", 1)
 	r.Require("unverified_state_withheld", 0)
 	r.Require("rogue_state_rejected", 10)
